@@ -577,7 +577,10 @@ func (w *World) beginBlock(dt time.Duration, f BlockFaults) error {
 		// jumps of days violate that assumption, so validators that staking has
 		// already removed are left out of the commit info.
 		if len(w.Reps) > 0 && w.Height > 1 && w.Reps[0].App != nil {
-			if _, ok := w.Reps[0].App.StakingKeeper.GetValidatorByConsAddr(w.CommittedCtx(), sdk.ConsAddress(v.ConsAddr)); !ok {
+			sv, ok := w.Reps[0].App.StakingKeeper.GetValidatorByConsAddr(w.CommittedCtx(), sdk.ConsAddress(v.ConsAddr))
+			if !ok || sv.IsUnbonded() {
+				// (an already unbonded validator that still sits in the delayed CometBFT
+				// set would be "slashed" for downtime, which staking refuses with a panic)
 				continue
 			}
 		}
